@@ -215,6 +215,27 @@ pub fn scenario(rng: &mut Rng, tier: Tier) -> Scenario {
         };
         ops.push(op);
     }
+    // one run in three also compares parse results with `==`: of one text parsed twice, and of a
+    // text and a near miss of it (another unit for the same size, another spelling of a mode or
+    // of a file name, the other case) — whatever the library calls equal must compile equally
+    if rng.chance(1, 3) {
+        for _ in 0..rng.range(1, 4) {
+            let a = rng.usize_below(n_subjects);
+            let b = if rng.chance(1, 4) {
+                a
+            } else {
+                match gen::near_miss(rng, &subjects[a]) {
+                    Some(v) => {
+                        subjects.push(v);
+                        subjects.len() - 1
+                    }
+                    None => a,
+                }
+            };
+            let at = rng.usize_below(ops.len() + 1);
+            ops.insert(at, if rng.chance(1, 2) { Op::Compare { a, b } } else { Op::Compare { a: b, b: a } });
+        }
+    }
     Scenario {
         subjects,
         paths: vec![FIXED_PATH.to_string()],
@@ -338,6 +359,43 @@ pub fn judge(sc: &Scenario, obs: &[(usize, Obs)]) -> Judgement {
     let mut j = Judgement::default();
     let mut hash_diverged = false;
     let fail = |class: &str, detail: String, ops: Vec<usize>| Violation { class: class.into(), detail, ops };
+
+    // ---- results the library calls equal compile to the same program and table
+    for (i, o) in obs {
+        if let Obs::Compared { a, b, parsed: true, trees_equal, options_equal, dumps_equal, outcome_a, outcome_b } = o {
+            *j.counters.entry("tree_comparisons".into()).or_insert(0) += 1;
+            if a == b && !(*trees_equal && *options_equal) {
+                j.violation = Some(fail(
+                    "parse-results-of-one-text-not-equal",
+                    format!("subject {a}: two parse results of the same text do not compare equal (trees ==: {trees_equal}, options equal: {options_equal})"),
+                    vec![*i],
+                ));
+                return j;
+            }
+            if *trees_equal && *options_equal {
+                if !dumps_equal {
+                    *j.counters.entry("equal_trees_with_different_dumps".into()).or_insert(0) += 1;
+                }
+                if let (Some((ta, tab_a)), Some((tb, tab_b))) = (outcome_a, outcome_b) {
+                    if ta != tb || tab_a != tab_b {
+                        let (x, y) = match (ta, tb) {
+                            (Ok(x), Ok(y)) | (Err(x), Err(y)) | (Ok(x), Err(y)) | (Err(x), Ok(y)) => (x, y),
+                        };
+                        j.violation = Some(fail(
+                            "equal-results-compile-differently",
+                            format!(
+                                "subjects {a} and {b}: the parse results compare equal (==, and equal options) but compile, under a clock that stands still, to different {} {}",
+                                if ta != tb { "programs" } else { "destination tables" },
+                                if ta != tb { first_diff(x, y) } else { format!("{tab_a:?} vs {tab_b:?}") }
+                            ),
+                            vec![*i],
+                        ));
+                        return j;
+                    }
+                }
+            }
+        }
+    }
 
     // ---- parse determinism
     let mut parsed: BTreeMap<usize, Vec<(usize, Option<&Result<String, String>>)>> = BTreeMap::new();
